@@ -57,6 +57,7 @@ type Spec struct {
 	NotCovered    []string            `json:"not_covered"`
 	Stubs         []string            `json:"stubs"`
 	NoopPkgs      []string            `json:"noop_pkgs"`
+	MergeFuncs    []string            `json:"merge_funcs"` // see merge.go
 	Level         string              `json:"level"`
 }
 
@@ -436,6 +437,10 @@ func loadEngine(spec *Spec) (*Engine, error) {
 		"github.com/opentracing/opentracing-go",
 		"go.uber.org/zap",
 	}, spec.NoopPkgs...)
+	e.mergeFns = map[string]bool{}
+	for _, f := range spec.MergeFuncs {
+		e.mergeFns[f] = true
+	}
 	e.errString = prog.ImportedPackage("errors").Type("errorString").Type()
 	registerNatives(e)
 	// harness packages are built eagerly (cheap) so that entry lookup works
